@@ -1406,3 +1406,32 @@ Proof.
   intros Hn Hf Hs Ha r r' Hr x Hx.
   apply (rename_lemma fi ode d S); auto. apply ren_fresh_injective; assumption.
 Qed.
+
+
+(* ================= convert_model round trip, split / create joint distribution ================= *)
+Lemma convert_roundtrip_id m : convert_nonmem (convert_generic m) = m.
+Proof. destruct m. reflexivity. Qed.
+
+Lemma convert_roundtrip_lemma fi ode m r x :
+  sexec fi ode r (pm_stmts (convert_nonmem (convert_generic m))) x = sexec fi ode r (pm_stmts m) x.
+Proof. rewrite convert_roundtrip_id. reflexivity. Qed.
+
+Lemma split_joint_function fi ode inds m r x :
+  sexec fi ode r (pm_stmts (split_joint inds m)) x = sexec fi ode r (pm_stmts m) x.
+Proof. reflexivity. Qed.
+
+Lemma split_joint_params_sub inds m p : In p (pm_params (split_joint inds m)) -> In p (pm_params m).
+Proof. cbn [split_joint pm_params]. intros H. apply filter_In in H. tauto. Qed.
+
+(* a parameter that the random variables still mention, or never mentioned, is kept *)
+Lemma split_joint_params_kept inds m p :
+  In p (pm_params m) ->
+  (In (fst (fst p)) (flat_map rdist_params (unjoin inds (pm_rvs m))) \/
+   ~ In (fst (fst p)) (flat_map rdist_params (pm_rvs m))) ->
+  In p (pm_params (split_joint inds m)).
+Proof.
+  intros Hp H. cbn [split_joint pm_params]. apply filter_In. split; [exact Hp|].
+  apply negb_true_iff. apply andb_false_iff. destruct H as [H|H].
+  - right. apply negb_false_iff. apply memp_In. exact H.
+  - left. apply not_memp. exact H.
+Qed.
